@@ -266,6 +266,8 @@ struct Stats {
 }
 
 fn run_one<P: Prop>(case: &P::Case) -> Outcome {
+    // des installs (and afterwards removes) its own panic hook around every simulation run
+    install_quiet_panic_hook();
     match catch(|| P::run(case)) {
         Ok(o) => o,
         Err((msg, loc)) => Outcome::failed(Failure::new(
@@ -499,6 +501,14 @@ pub fn drive<P: Prop>(args: &Args) -> i32 {
             .env("VERIF_SEED", args.seed.to_string())
             .stdin(Stdio::null())
             .stdout(Stdio::null())
+            .stderr(if std::env::var_os("VERIF_VERBOSE").is_some() {
+                Stdio::inherit()
+            } else {
+                // panic reports of des and harness diagnostics: kept for inspection, not shown
+                std::fs::File::create(dir.join(format!("worker-{shard}.stderr")))
+                    .map(Stdio::from)
+                    .unwrap_or_else(|_| Stdio::null())
+            })
             .spawn()
             .expect("spawn worker");
         children.push((shard, child, None::<std::process::ExitStatus>));
@@ -555,7 +565,10 @@ pub fn drive<P: Prop>(args: &Args) -> i32 {
                         replay: keep.display().to_string(),
                     });
                 } else {
-                    inconclusive.push(format!("worker {shard} ended with {s}"));
+                    let tail = std::fs::read_to_string(dir.join(format!("worker-{shard}.stderr")))
+                        .map(|t| t.lines().rev().take(3).collect::<Vec<_>>().join(" | "))
+                        .unwrap_or_default();
+                    inconclusive.push(format!("worker {shard} ended with {s}: {tail}"));
                 }
                 continue;
             }
